@@ -31,8 +31,7 @@ func init() {
 func runC13(e *Env) {
 	ruleShortenSem(e, "C13.shorten")
 	ruleC13Sep(e)
-	ruleC13Group(e)
-	ruleC13Emit(e)
+	ruleFormatSem(e, "C13.format")
 	ruleC13Methods(e)
 	// the digit text and the destination buffer must not share storage, and the caller's prefix is only appended to
 	if df := e.Fn("C13.emit", "size", "DefaultFormatter"); df != nil {
@@ -43,10 +42,9 @@ func runC13(e *Env) {
 	}
 	e.S.Floor("C13.buffer", 2)
 	e.S.Floor("C13.methods", 7)
-	e.S.Floor("C13.emit", 3)
+	e.S.Floor("C13.format", 4)
 	e.S.Floor("C13.shorten", 8)
 	e.S.Floor("C13.sep", 4)
-	e.S.Floor("C13.group", 9)
 }
 
 func ruleC13Shorten(e *Env, units []string) {
@@ -862,6 +860,147 @@ func ruleShortenSem(e *Env, rule string) {
 			e.S.Bad(rule, site, construct, "a size with exactly "+fmt.Sprint(lo)+" trailing zero bits in whole groups of ten: Shorten "+bad, pos, fmt.Sprintf("Size(1<<%d)", lo))
 		default:
 			e.S.Ok(rule, site, construct, fmt.Sprintf("⇒ (s >> %d, %q) on every path (%d)", lo, want[k], len(leaves)), pos)
+		}
+	}
+}
+
+// fmtItems flattens an abstract byte sequence built by append into items: "<sym>" for opaque operands, "{sym}" for
+// single symbolic bytes, literal text for constants.
+func fmtItems(v pred.Val) ([]string, bool) {
+	switch x := v.(type) {
+	case pred.Sym:
+		if x.Name == "make" {
+			return nil, true
+		}
+		return []string{"<" + x.Name + ">"}, true
+	case pred.Const:
+		if x.V == nil {
+			return nil, true
+		}
+		if x.V.Kind() == constant.String {
+			if constant.StringVal(x.V) == "" {
+				return nil, true
+			}
+			return []string{constant.StringVal(x.V)}, true
+		}
+	case *pred.SliceV:
+		var out []string
+		for _, c := range x.Elems {
+			if k, ok := intOf(c.V); ok {
+				out = append(out, string(rune(k)))
+			} else if s, ok := c.V.(pred.Sym); ok {
+				out = append(out, "{"+s.Name+"}")
+			} else {
+				return nil, false
+			}
+		}
+		return out, true
+	case pred.Term:
+		if x.Fn == "builtin.append" && len(x.Args) == 2 {
+			a, ok1 := fmtItems(x.Args[0])
+			b, ok2 := fmtItems(x.Args[1])
+			return append(a, b...), ok1 && ok2
+		}
+		if (x.Fn == "slice" || x.Fn == "slice[:0]") && len(x.Args) == 1 {
+			if p, ok := x.Args[0].(pred.Ptr); ok && p.Cell != nil {
+				return nil, true // zero-length slice of a fresh local array
+			}
+		}
+	}
+	return nil, false
+}
+
+// ruleFormatSem: size.DefaultFormatter decided by its meaning. For every digit count n = 1..20 (all a uint64 can
+// have) and each of the four flag combinations the formatter is evaluated with Shorten's results opaque and the
+// decimal text a sequence of n symbolic digits: the result must be buf, the digits in order with the separator of
+// that flag combination after every digit that has a multiple of three digits to its right (which puts exactly one
+// before the unit), then the unit — and nothing else.
+func ruleFormatSem(e *Env, rule string) {
+	fn := e.Fn(rule, "size", "DefaultFormatter")
+	sh := e.P.Method("size", "Size", "Shorten")
+	if fn == nil || sh == nil {
+		return
+	}
+	site := flow.FnName(fn)
+	pos := e.Pos(fn)
+	pretty, ok1 := tabConstInt(e, "size", "FormatPretty")
+	html, ok2 := tabConstInt(e, "size", "FormatHTML")
+	if !ok1 || !ok2 || pretty == 0 || html == 0 || pretty == html {
+		e.S.Unk(rule, site, "flags", "FormatPretty/FormatHTML constants not found or not distinct bits", pos)
+		return
+	}
+	hook := e.globalTables()
+	for _, c := range []struct {
+		f    int64
+		sep  string
+		name string
+	}{{0, "", "plain"}, {pretty, " ", "pretty"}, {pretty | html, "&nbsp;", "pretty|html"}, {html, "", "html only"}} {
+		bad := ""
+		undecided := ""
+		for n := 1; n <= 20 && bad == "" && undecided == ""; n++ {
+			digits := func() *pred.SliceV {
+				sv := &pred.SliceV{}
+				for i := 0; i < n; i++ {
+					sv.Elems = append(sv.Elems, &pred.Cell{V: pred.Sym{Name: fmt.Sprintf("d%d", i)}, Name: "digit"})
+				}
+				return sv
+			}
+			emptyDst := func(v pred.Val) bool {
+				items, ok := fmtItems(v)
+				return ok && len(items) == 0
+			}
+			sums := map[string]pred.Summary{
+				sh.String(): func(ev *pred.Evaluator, args []pred.Val) (pred.Val, error) {
+					return pred.Tuple{pred.Sym{Name: "value"}, pred.Sym{Name: "unit"}}, nil
+				},
+				"strconv.FormatUint": func(ev *pred.Evaluator, args []pred.Val) (pred.Val, error) {
+					if len(args) != 2 || args[0].String() != "value" || args[1].String() != "10" {
+						return nil, &pred.Undecided{Reason: "FormatUint is not applied to (Shorten's value, 10)"}
+					}
+					return digits(), nil
+				},
+				"strconv.AppendUint": func(ev *pred.Evaluator, args []pred.Val) (pred.Val, error) {
+					if len(args) != 3 || args[1].String() != "value" || args[2].String() != "10" || !emptyDst(args[0]) {
+						return nil, &pred.Undecided{Reason: "AppendUint is not applied to (an empty scratch buffer, Shorten's value, 10)"}
+					}
+					return digits(), nil
+				},
+			}
+			ev := &pred.Evaluator{Prog: e.P.SSA, Oracle: noOracle{}, Summaries: sums, GlobalInit: hook}
+			out, err := ev.Eval(fn, []pred.Val{pred.Sym{Name: "buf"}, pred.Sym{Name: "s"}, pred.Const{V: constant.MakeInt64(c.f)}})
+			if err != nil {
+				undecided = fmt.Sprintf("%d digits: %v", n, err)
+				break
+			}
+			t, ok := out.Ret.(pred.Tuple)
+			if out.Panic || !ok || len(t) != 2 || t[1].String() != "nil" {
+				bad = fmt.Sprintf("%d digits: the formatter does not return (bytes, nil)", n)
+				break
+			}
+			items, ok := fmtItems(t[0])
+			if !ok {
+				undecided = fmt.Sprintf("%d digits: result %v is not an append chain over buf", n, t[0])
+				break
+			}
+			want := "<buf>"
+			for i := 0; i < n; i++ {
+				want += fmt.Sprintf("{d%d}", i)
+				if (n-1-i)%3 == 0 {
+					want += c.sep
+				}
+			}
+			want += "<unit>"
+			if got := strings.Join(items, ""); got != want {
+				bad = fmt.Sprintf("a value of %d digits with flags %s renders as %s, documented %s", n, c.name, got, want)
+			}
+		}
+		switch {
+		case undecided != "":
+			e.S.Unk(rule, site, c.name, "not evaluable: "+undecided, pos)
+		case bad != "":
+			e.S.Bad(rule, site, c.name, bad, pos, "")
+		default:
+			e.S.Ok(rule, site, c.name, fmt.Sprintf("1..20 digits: buf, digits grouped in threes from the right with %q, one %q before the unit, the unit", c.sep, c.sep), pos)
 		}
 	}
 }
